@@ -7,11 +7,52 @@ import Penguin.Basic.Bytes
 import Penguin.Basic.Loop
 import Penguin.Model.Frame
 import Penguin.Model.Mux
+import Penguin.Model.MuxExt
 
 open Penguin Penguin.Mux
 
+/-! ### Compact tokens for long payloads
+
+The huge-write cases of the harness (one write of more than 1 MiB) use payloads that are runs
+`k, k+1, …` modulo 251. A byte string of at least 1024 such bytes — possibly after a 5-byte frame
+header — is written `<hex of the header>z:<n>:<k>` in both directions (harness/src/muxsim.rs
+`hexz` / `unhexz`), so that no line carries megabytes of hex. -/
+
+def zpattern (n k : Nat) : Bytes := (List.range n).map fun i => UInt8.ofNat ((k + i) % 251)
+
+/-- `bs` is the run `k, k+1, …` modulo 251 (tail recursive: it runs over millions of bytes). -/
+def isRun : Nat → Bytes → Bool
+  | _, [] => true
+  | k, b :: rest => if b.toNat == k % 251 then isRun (k + 1) rest else false
+
+def zMin : Nat := 1024
+
+def startsRun (bs : Bytes) : Bool :=
+  match bs with
+  | b :: _ => if b.toNat < 251 then isRun b.toNat bs else false
+  | [] => false
+
+def zTok (bs : Bytes) : String :=
+  if bs.length < zMin then hexOrDash bs
+  else if startsRun bs then s!"z:{bs.length}:{(bs.headD 0).toNat}"
+  else
+    let tl := bs.drop 5
+    if tl.length ≥ zMin && startsRun tl then s!"{toHex (bs.take 5)}z:{tl.length}:{(tl.headD 0).toNat}"
+    else toHex bs
+
+def ofHexZ (s : String) : Option Bytes :=
+  match s.splitOn "z:" with
+  | [pre, z] =>
+    match z.splitOn ":" with
+    | [n, k] =>
+      match n.toNat?, k.toNat?, (if pre.isEmpty then some [] else ofHexChars pre.toList) with
+      | some n, some k, some p => if n ≤ 16777216 ∧ k < 251 then some (p ++ zpattern n k) else none
+      | _, _, _ => none
+    | _ => none
+  | _ => ofHex s
+
 def showMsg : Msg → String
-  | .frame f => toHex (encode f)
+  | .frame f => zTok (encode f)
   | .ping => "ping"
   | .pong => "pong"
   | .close => "close"
@@ -39,7 +80,7 @@ def showEv : Ev → String
 def showRes : Res → String
   | .unit => "unit"
   | .wrote n => s!"wrote {n}"
-  | .data b => s!"data {hexOrDash b}"
+  | .data b => s!"data {zTok b}"
   | .eof => "eof"
   | .pending => "pending"
   | .brokenPipe => "brokenpipe"
@@ -61,8 +102,11 @@ def run1 (st : St) (n : String) (e : EP) (op : Mux.Op) : St × String :=
   let (e, r, evs) := applyOp e op
   (putEP st n e, showRes r ++ " | " ++ "; ".intercalate (evs.map showEv))
 
+def run3 (st : St) (n : String) (r : EP × Res × List Ev) : St × String :=
+  (putEP st n r.1, showRes r.2.1 ++ " | " ++ "; ".intercalate (r.2.2.map showEv))
+
 def parseIn : List String → Option WsIn
-  | ["bin", h] => (ofHex h).map fun bs =>
+  | ["bin", h] => (ofHexZ h).map fun bs =>
       match decode bs with
       | .ok f => WsIn.msg (.frame f)
       | .error e => WsIn.bad e
@@ -96,11 +140,15 @@ def step (st : St) (line : String) : St × String :=
         | _, _, _ => (st, "bad-op")
       | "accept", [] => run1 st n e .accept
       | "write", [h, d] =>
-        match h.toNat?, ofHex d with
+        match h.toNat?, ofHexZ d with
         | some h, some d => run1 st n e (.write h d)
         | _, _ => (st, "bad-op")
+      | "wpush", [h, d] =>
+        match h.toNat?, ofHexZ d with
+        | some h, some d => run3 st n (applyWritePush e h d)
+        | _, _ => (st, "bad-op")
       | "writev", h :: ps =>
-        match h.toNat?, ps.mapM ofHex with
+        match h.toNat?, ps.mapM ofHexZ with
         | some h, some ps => run1 st n e (.write h ps.flatten)
         | _, _ => (st, "bad-op")
       | "read", [h, k] =>
@@ -146,6 +194,8 @@ def step (st : St) (line : String) : St × String :=
         match k.toNat? with
         | some k => run1 st n e (.sinkRoom (some k))
         | none => (st, "bad-op")
+      | "deliver", ["closeerr"] => run3 st n (applyDeliverMany e [.msg .close, .err])
+      | "deliver", ["err2"] => run3 st n (applyDeliverMany e [.err, .err])
       | "deliver", w =>
         match parseIn w with
         | some w => run1 st n e (.deliver w)
